@@ -2,6 +2,8 @@ package drivers
 
 import (
 	"bytes"
+	"crypto/x509/pkix"
+	"encoding/asn1"
 	"encoding/json"
 	"errors"
 	"fmt"
@@ -239,6 +241,8 @@ func (s *hookStore) Update(o crlstore.CRLStore) error {
 // c17Disk: whole path download -> parse -> LevelDB -> lookup with n entries.
 func c17Disk(chk *fw.Check, n int) (growth int64) {
 	p := world.Std()
+	lookupGrowth := int64(0)
+	defer func() { c17LookupGrowth = append(c17LookupGrowth, lookupGrowth) }()
 	doc := c17Doc(n, false)
 	var atHalf, atEnd, base uint64
 	seqWorld(func() {
@@ -283,6 +287,26 @@ func c17Disk(chk *fw.Check, n int) (growth int64) {
 		l := world.Leaf(p.CA, serial(n+5), []string{urlA}, nil)
 		if v := w.Lookup(l, world.Chain(l, p.CA, p.Root)); v.String() != "OK" {
 			chk.Violation("C17|disk-path-unlisted", fmt.Sprintf("disk path: unlisted serial => %s %s", v, v.Err), nil)
+		}
+		// the lookup leg: many lookups spread over the whole key space must not make the store hold on to what it read
+		if ents := w.Repo().VerifEntries(); len(ents) == 1 && ents[0].Store != nil {
+			var issuer pkix.RDNSequence
+			asn1.Unmarshal(p.CA.Cert.RawSubject, &issuer)
+			before := liveHeap()
+			misses := 0
+			for i := 0; i < n; i += 16 {
+				st, err := ents[0].Store.GetCertRevocationStatus(&issuer, serial(i))
+				if err != nil || st == nil || !st.Revoked {
+					misses++
+				}
+			}
+			lookupGrowth = int64(liveHeap()) - int64(before)
+			if misses > 0 {
+				chk.Violation("C17|disk-path-lost-entry", fmt.Sprintf("disk path with %d entries: %d of %d store lookups of listed serials did not answer revoked", n, misses, n/16), nil)
+			}
+			if lookupGrowth > 20*mib {
+				chk.Violation("C17|disk-lookups-retain-memory", fmt.Sprintf("disk storage with %d entries: %d lookups spread over the key space made the live heap grow by %d bytes (bound 20 MiB; LevelDB's default block cache is 8 MiB)", n, n/16, lookupGrowth), map[string]interface{}{"n": n})
+			}
 		}
 		w.Chk.Cleanup()
 	})
@@ -438,6 +462,8 @@ func c17RefreshFootprint(chk *fw.Check, n int, dir string) int64 {
 
 const c17RefreshBound = 96 * mib
 
+var c17LookupGrowth []int64
+
 // c17RefreshSteps: per entry count, the largest number of bytes allocated between two consecutive effect points which
 // are not both inserts, by kind of interval
 var c17RefreshSteps = map[int]map[string]int64{}
@@ -579,16 +605,17 @@ func RunC17(tier string, args []string) int {
 		distinct++
 	}
 	cov := fw.Coverage{
-		"evaluations":                    evals,
-		"distinct_nontrivial":            distinct,
-		"rule":                           fmt.Sprintf("entry counts: every N in [0,256] and N = 2^k for k = 9..%d (DER, PEM for selected N) through the real reader with a discarding processor; transfer sizes %v bytes via URL download and file copy; whole disk path with N in %v. Non-trivial = N > 1 (the loop iterates).", maxK, sizes, diskN),
-		"heap_samples":                   samples,
-		"disk_peak_growth_bytes":         growths,
-		"reader_footprint_growth_bytes":  footprints,
-		"refresh_footprint_growth_bytes": []int64{refreshSmall, refreshGrowth},
+		"evaluations":                                   evals,
+		"distinct_nontrivial":                           distinct,
+		"rule":                                          fmt.Sprintf("entry counts: every N in [0,256] and N = 2^k for k = 9..%d (DER, PEM for selected N) through the real reader with a discarding processor; transfer sizes %v bytes via URL download and file copy; whole disk path with N in %v. Non-trivial = N > 1 (the loop iterates).", maxK, sizes, diskN),
+		"heap_samples":                                  samples,
+		"disk_peak_growth_bytes":                        growths,
+		"disk_lookup_leg_growth_bytes":                  c17LookupGrowth,
+		"reader_footprint_growth_bytes":                 footprints,
+		"refresh_footprint_growth_bytes":                []int64{refreshSmall, refreshGrowth},
 		"refresh_alloc_between_effect_points_over_2MiB": stepNotes,
-		"samples":    []string{"N=256 DER", fmt.Sprintf("N=%d PEM", 1<<maxK), "64 MiB lazily produced download body", fmt.Sprintf("disk path N=%d", diskN[0])},
-		"exhaustive": true,
+		"samples":                                       []string{"N=256 DER", fmt.Sprintf("N=%d PEM", 1<<maxK), "64 MiB lazily produced download body", fmt.Sprintf("disk path N=%d", diskN[0])},
+		"exhaustive":                                    true,
 	}
 	return chk.Finish(cov)
 }
